@@ -73,13 +73,19 @@ def tsv_rows(data):
     """independent TSV reader: (header count, measurement rows, meta record lines with positions)"""
     text = data.decode("utf-8")
     rows, headers, recs = [], 0, []
+    benches = {}
     for i, l in enumerate(text.split("\n")):
         if l == "":
             continue
         if l.startswith("#"):
+            if l.startswith("# benchmark: "):
+                ident, js = l[len("# benchmark: "):].split("=", 1)
+                benches[int(ident)] = json.loads(js)
             if l.startswith("# run_id: "):
                 ident, js = l[len("# run_id: "):].split("=", 1)
-                recs.append((i, int(ident), json.loads(js)))
+                rec = json.loads(js)
+                rec["_bench"] = benches.get(rec.get("benchmark_id"))
+                recs.append((i, int(ident), rec))
             continue
         if l == dh.HEADER:
             headers += 1
@@ -163,9 +169,16 @@ def run(chk):
                         chk.violation("C06 the column header appears once per file", dict(case, file=os.path.basename(f)), 1, headers)
                     for (ln, r) in rows:
                         rid = int(r[-1])
-                        if not any(rl < ln and rident == rid for rl, rident, _ in recs):
+                        mine = [rec for rl, rident, rec in recs if rl < ln and rident == rid]
+                        if not mine:
                             chk.violation("C06 a metadata record describing the run precedes its measurements",
                                           dict(case, file=os.path.basename(f)), "record before line %d" % ln, r)
+                            break
+                        b = mine[-1].get("_bench") or {}
+                        described = (b.get("name"), (b.get("suite") or {}).get("name"), ((b.get("suite") or {}).get("executor") or {}).get("name"))
+                        if described != (r[5], r[7], r[6]):
+                            chk.violation("C06 the record a measurement line refers to describes the run of that line (benchmark, suite, executor)",
+                                          dict(case, file=os.path.basename(f)), (r[5], r[7], r[6]), described)
                             break
                     checks.append((dict(case, file=os.path.basename(f)), f, prev[f], now, got))
                     # ---- model: appended abstract lines = session_lines(old lines, data points recorded)
